@@ -23,7 +23,7 @@ func init() {
 		Fn: checkC12, Level: "model_checking",
 		Rule: "(a) lifecycle/vote monitor (status edges, one vote per address and round while open, recorded voter power = snapshot stake + snapshot tips + liquid balance (+team constant), group counters = sum of recorded per-voter powers, recorded result = exact-rational formula) on an exhaustive DFS over all orders of {Vote(voter in team/tipper/R1/R2/S1/S2/S3/payer/holder, choice), AddFee, new round, Block(1s|1d|2d+1ms|3d+1ms)} (depth 4 quick / 6 thorough, state-hash dedup) from 3 dispute states, and on all <=k-deviation histories around the shared skeletons; (b) TallyVote on injected counters: every distribution with per-group (support,against,invalid) in {0,1,2,3}^3 x team in {none,S,A,I} x 3 participation levels around quorum x before/after the voting deadline (quick: groups over {0,1,3}); a result must exist for every distribution",
 		Assume:      []string{"comparisons of scores closer than 4e-6 (the code's truncation grain) accept either neighbour; exact ties accept any decided result", "participation is vote sum / group total without a cap, as implemented"},
-		QuickBudget: 7 * time.Minute, ThoroughBudget: 15 * time.Minute,
+		QuickBudget: 10 * time.Minute, ThoroughBudget: 15 * time.Minute,
 	})
 }
 
